@@ -158,10 +158,12 @@ fn format_variant(
             ),
         },
         (false, Tagged::Internally { tag }) => match variant_type.inline_flattened {
-            Some(_) => {
+            // The tag is already part of the inlined struct - unless the variant's type is
+            // replaced by `as` or `type`, in which case it has to be added here.
+            Some(_) if variant_attr.type_as.is_none() && variant_attr.type_override.is_none() => {
                 quote! { #parsed_ty }
             }
-            None => match &variant.fields {
+            _ => match &variant.fields {
                 Fields::Unnamed(unnamed) if unnamed.unnamed.len() == 1 => {
                     let field = &unnamed.unnamed[0];
                     let field_attr = FieldAttr::from_attrs(&unnamed.unnamed[0].attrs)?;
